@@ -8,6 +8,7 @@ mod cli;
 mod c10;
 mod c10gen;
 mod c11;
+mod c11enum;
 mod calibrate;
 mod corpus;
 mod driver;
